@@ -396,6 +396,48 @@ Definition rs_coarse (nt : nat) (A P R : crs) : crs := galerkin nt A P R.
 
 End Coarsen.
 
+
+(* ---------------------------------------------------------------- one level of a hierarchy, uniform interface
+   (for the amg group: build hierarchies entirely inside the model).  The policy object's mutable
+   state is the float eps_strong, halved after every level by smoothed_aggregation and
+   smoothed_aggr_emin: the per-level values eps_strong^2 (computed in float by the harness) are
+   supplied as a list, head = current level.  nt = omp_get_max_threads() (product() switches kernels). *)
+Inductive policy {S : Scalar} :=
+| PolAggregation (eps2 : S) (bs : nat) (s_over : S)            (* s_over = 1 / over_interp, in float *)
+| PolSA (eps2s : list S) (bs : nat) (relax c23 : S)
+| PolSAGersh (eps2s : list S) (bs : nat) (relax c43 : S)       (* estimate_spectral_radius, power_iters = 0 *)
+| PolEmin (eps2s : list S) (bs : nat)
+| PolRS (eps_strong eps_trunc : S) (do_trunc : bool).
+Inductive step_result {S : Scalar} :=
+| StepEmpty | StepPrecond | StepOob
+| StepOk (P R Ac : crs S) (next : @policy S).
+
+Section Step.
+Context {S : Scalar}.
+Definition with_coarse (t : transfer S) (coarse : crs S -> crs S -> crs S) (next : @policy S) : @step_result S :=
+  match t with
+  | TrEmpty => StepEmpty | TrPrecond => StepPrecond | TrOob => StepOob
+  | TrOk P R => StepOk P R (coarse P R) next
+  end.
+(* junk: diagonal cells of rows without a diagonal entry (plain_aggregates); junkf: unused since 8cfa879 *)
+Definition coarsen_step (nt : nat) (pol : @policy S) (A : crs S) (junk : vec S) (junkf : flags) : @step_result S :=
+  match pol with
+  | PolAggregation eps2 bs s =>
+    with_coarse (aggregation_transfer eps2 bs A junk) (fun P R => aggregation_coarse nt s A P R) pol
+  | PolSA eps2s bs relax c23 =>
+    with_coarse (sa_transfer (nth 0 eps2s s0) relax c23 bs A junk) (fun P R => sa_coarse nt A P R)
+                (PolSA (tl eps2s) bs relax c23)
+  | PolSAGersh eps2s bs relax c43 =>
+    with_coarse (sa_transfer_gersh (nth 0 eps2s s0) relax c43 bs A junk) (fun P R => sa_coarse nt A P R)
+                (PolSAGersh (tl eps2s) bs relax c43)
+  | PolEmin eps2s bs =>
+    with_coarse (emin_transfer nt (nth 0 eps2s s0) bs A junk) (fun P R => emin_coarse nt A P R)
+                (PolEmin (tl eps2s) bs)
+  | PolRS es et dt =>
+    with_coarse (rs_transfer es et dt A junkf) (fun P R => rs_coarse nt A P R) pol
+  end.
+End Step.
+
 (* ================================================================ specifications
    (used by the theorems of CoarsenProofs.v and, extracted, by the oracle ops that
    are evaluated on the implementation's outputs) *)
